@@ -76,6 +76,14 @@ OUTCOMES = {
     "stray": att(head=hd(), body=5, stray=7),
     "ok-chunked": att(head=hd(cl=None), body=5, chunks=[3, 2], trailers=[4]),
     "chunked-held": att(head=hd(cl=None), body=5, chunks=[3, 2], trailers=[4, 9], hold=8),
+    # the peer ends a chunked reply early (the held tail never arrives): right after the last-chunk line (EOF where
+    # the terminating empty line should be), inside the trailer section, before the last-chunk line, inside a chunk.
+    # (No cut INSIDE a chunk-size line: the model reads a framing line `<digit>\r\n` atomically, like a head, while
+    # `int(b"0", 16)` also accepts the line without its line end; DESIGN.md section 10.)
+    "chunked-cut-end": att(head=hd(cl=None), body=5, chunks=[3, 2], hold=2, after="fin"),
+    "chunked-cut-trailer": att(head=hd(cl=None), body=5, chunks=[3, 2], trailers=[4, 9], hold=8, after="fin"),
+    "chunked-cut-last": att(head=hd(cl=None), body=5, chunks=[3, 2], hold=5, after="fin"),
+    "chunked-cut-data": att(head=hd(cl=None), body=5, chunks=[3, 2], hold=8, after="fin"),
     "302": att(head=hd(302, loc=True), body=2),
     "302-close": att(head=hd(302, close=True, loc=True), body=2, after="fin"),
     "500": att(head=hd(500), body=3),
@@ -986,7 +994,8 @@ class C01(Prop):
         # 2. the disposal x request-configuration matrix on the plain outcomes
         for cfg in CONFIGS_QUICK:
             for a in ("ok", "ok-close", "ok-untilclose", "ok-big", "short-silent", "short-fin", "stray", "204", "body-intr",
-                      "ok-chunked", "chunked-held"):
+                      "ok-chunked", "chunked-held", "chunked-cut-end", "chunked-cut-trailer", "chunked-cut-last",
+                      "chunked-cut-data"):
                 for rc in (REQCFGS if deep else REQCFGS[1:5]):
                     for d in DISPOSALS:
                         ops = [dict(op="req", script=[a, BENIGN, BENIGN], **rc), dict(op="disp", rid=0, how=d),
